@@ -129,7 +129,7 @@ class StoredEditsNative(Contract):
     symbolic = False
     has_native = True
     props = ("C03",)
-    bounded_scope = "value map and colour map re-assigned 1-4 times on a stored type (same session and across sessions, fresh dictionaries and the earlier dictionary / map object edited in place); concatenated drillholes renamed / re-planned / re-costed in a session that does nothing else (both format versions)"
+    bounded_scope = "value map and colour map re-assigned 1-4 times on a stored type (same session and across sessions, fresh dictionaries and the earlier dictionary / map object edited in place); concatenated drillholes renamed / re-planned / re-costed / re-surveyed in a session that does nothing else (both format versions)"
 
     def native_cases(self, tier, rng):
         for n in (1, 2, 3, 4):
@@ -139,7 +139,7 @@ class StoredEditsNative(Contract):
         for how in ("same-dict-extended", "same-dict-relabelled", "map-object-edited"):
             yield {"kind": "value-map-inplace", "how": how}
         for version in (2.0, 2.1):
-            for attrs in (["name"], ["planning", "cost"], ["name", "end_of_hole"], ["collar"]):
+            for attrs in (["name"], ["planning", "cost"], ["name", "end_of_hole"], ["collar"], ["surveys"], ["surveys", "name"]):
                 yield {"kind": "concatenated-scalars", "version": version, "attrs": attrs}
 
     def native_check(self, case):
@@ -262,7 +262,8 @@ class StoredEditsNative(Contract):
             for k in range(2):
                 h = Drillhole.create(ws, name=f"hole_{k}", parent=g, collar=np.r_[float(k), 0.0, 0.0], surveys=np.c_[np.r_[0.0, 10.0], np.zeros(2), np.ones(2) * -90.0])
                 h.add_data({"Au": {"depth": np.array([1.0, 2.0]), "values": np.arange(2.0) + k}})
-        new = {"name": "hole_renamed", "planning": "Ongoing", "cost": 1234.5, "end_of_hole": 77.0, "collar": [5.0, 6.0, 7.0]}
+        new = {"name": "hole_renamed", "planning": "Ongoing", "cost": 1234.5, "end_of_hole": 77.0, "collar": [5.0, 6.0, 7.0],
+               "surveys": np.c_[np.r_[0.0, 20.0, 40.0], np.r_[10.0, 20.0, 30.0], np.r_[-80.0, -70.0, -60.0]]}
         with Workspace(path, mode="r+") as ws:  # a session that only edits scalar attributes of a stored hole
             h = [c for c in ws.get_entity("DH")[0].children if c.name == "hole_1"][0]
             uid = h.uid
@@ -273,6 +274,10 @@ class StoredEditsNative(Contract):
             for a in case["attrs"]:
                 got = getattr(h, a)
                 got = [float(got[k]) for k in ("x", "y", "z")] if a == "collar" else got
+                if a == "surveys":
+                    if np.shape(got) != new[a].shape or not np.allclose(np.asarray(got, dtype=float), new[a]):
+                        return f"hole surveys re-assigned on a stored hole: the writer held {new[a].tolist()}, a later reader sees {np.asarray(got).tolist()} ({case})"
+                    continue
                 if got != new[a]:
                     return f"hole attribute {a}: the writer held {new[a]!r}, a later reader sees {got!r} ({case})"
         return None
